@@ -33,9 +33,10 @@ def _is_destroyer(x):
     return False
 
 
-def rule_U7(chk, fn, g, shift_renames, dump_renames, dump_local, name_helpers=None,
+def rule_U7(chk, fn, g, shift_renames, dump_renames, dump_local, name_helpers=None, name_helper_pos=None,
             counters=("_maximum_number_of_backups", "_number_of_backups", "_number_of_restarts")):
     name_helpers = name_helpers or {}
+    name_helper_pos = name_helper_pos or {}
     mx_n, nb_n, nr_n = counters
     calls = []
     for node in g.nodes:
@@ -87,7 +88,7 @@ def rule_U7(chk, fn, g, shift_renames, dump_renames, dump_local, name_helpers=No
                 continue
             break
         if e.get("k") == "Call" and e.get("fn") in name_helpers and e.get("a"):
-            return e["a"][0]          # a helper that builds `restart.<k>.back` from k
+            return e["a"][name_helper_pos.get(e["fn"], 0)]          # a helper that builds `restart.<k>.back` from k
         if e.get("k") == "Ref" and e.get("id") in index_ast:
             return index_ast[e["id"]]
         if e.get("k") == "Ref" and e.get("id") in str_inits:
